@@ -434,7 +434,7 @@ func lockProbe(s *server.GCAServer, r *ev.Result, ctx string, replay interface{}
 		which = "server-list-mutex"
 	}
 	r.Violationf("leaked-lock:"+which, map[string]interface{}{"after": ctx, "detail": replay, "batch": curBatch},
-		"%s could not be obtained in %d attempts over 15 s at quiescence after %s: a path returned without unlocking", which, tries, ctx)
+		"%s could not be obtained in %d attempts over 15 s after %s: a path returned without unlocking, or its holder is blocked for good", which, tries, ctx)
 	return false
 }
 
